@@ -124,6 +124,10 @@ func NewContextWith(data map[string]interface{}) *Context {
 // provided and setting the outer context with the passed
 // seccond argument.
 func NewContextWithOuter(data map[string]interface{}, out *Context) *Context {
+	if data == nil {
+		data = map[string]interface{}{}
+	}
+
 	c := &Context{
 		Context: context.Background(),
 		data:    data,
